@@ -13,7 +13,7 @@ SPEC = {'level': 'exploration',
              'binary': 'vh_c03',
              'target': 'c03_bulk',
              'cases_quick': 1200,
-             'cases_thorough': 40000,
+             'cases_thorough': 8000,
              'rule': 'bulk scriptSig at the 1,000,000-byte no-witness boundary; all non-trivial'},
             {'kind': 'enum', 'binary': 'vh_c03', 'target': 'c03_ruletable', 'rule': 'exhaustive 2^9 rule-violation combinations x 4 variants'},
         # coverage-guided libFuzzer campaign on the same target (thorough tier only; fz tree = g++ trace-pc + covshim)
